@@ -49,6 +49,10 @@ func main() {
 		}
 		rep := core.NewReport(id, *shard)
 		t0 := time.Now()
+		if *out == "" {
+			*out = "/dev/stdout"
+		}
+		go watchdog(id, rep, *out)
 		chk(ctx, rep)
 		rep.WallS = time.Since(t0).Seconds()
 		if *out == "" {
@@ -79,6 +83,11 @@ func main() {
 			fmt.Fprintln(os.Stderr, err)
 			os.Exit(2)
 		}
+		go func() { // a replay that does not return is the reproduction of a hang
+			time.Sleep(hangLimit())
+			fmt.Println("REPRODUCED: hang: the replay did not return within", hangLimit())
+			os.Exit(1)
+		}()
 		what, err := rp(art.Replay)
 		if err != nil {
 			fmt.Fprintln(os.Stderr, "replay error:", err)
@@ -89,5 +98,36 @@ func main() {
 			os.Exit(1)
 		}
 		fmt.Println("not reproduced")
+	}
+}
+
+// the limit is read once, before any check runs: the C05 seam counts every environment access of the process
+var hangLimitValue = func() time.Duration {
+	if d, err := time.ParseDuration(os.Getenv("VERIF_HANG")); err == nil && d > 0 {
+		return d
+	}
+	return 60 * time.Second
+}()
+
+func hangLimit() time.Duration { return hangLimitValue }
+
+// watchdog: a state that stays in flight for longer than the limit (a full-registry lint run costs
+// about a millisecond) is a hang. "Returns normally ... no hang" is part of C01, so there it is a
+// violation with the state as artefact; in every other check it is an internal error of the run
+// (exit 2), never an alarm. Either way the worker ends instead of blocking the driver forever.
+func watchdog(id string, rep *core.Report, out string) {
+	for {
+		time.Sleep(2 * time.Second)
+		kind, replay, ok := core.Hung(hangLimit())
+		if !ok {
+			continue
+		}
+		if id == "C01" {
+			rep.Violate("C01|"+kind+"|hang", fmt.Sprintf("linting did not return within %s (normal cost ≈ 1 ms)", hangLimit()), replay)
+		} else {
+			rep.InternalError("state in flight for more than %s (hang) — C01's business: %v", hangLimit(), replay["path"])
+		}
+		_ = rep.Write(out)
+		os.Exit(0)
 	}
 }
